@@ -39,7 +39,7 @@ func NewH264Depacketizer(meta *codec.VideoMeta, w codec.FrameWriter) Depacketize
 
 func (h264dp *h264Depacketizer) Depacketize(packet *Packet) (err error) {
 	payload := packet.Payload()
-	if len(payload) < 3 {
+	if len(payload) < 1 {
 		return
 	}
 
